@@ -18,6 +18,9 @@ def base_meshes(tier="quick"):
     out.append(("quad-tensor6", fem.MeshQuad.init_tensor(np.array([0., .3, 1.]), np.array([0., .4, .7, 1.]))))
     out.append(("tet-default", fem.MeshTet()))
     out.append(("tet-tensor", fem.MeshTet.init_tensor(np.array([0., .6, 1.]), np.array([0., 1.]), np.array([0., .5, 1.]))))
+    A3 = np.array([[1., .45, .2], [.1, .8, -.35], [-.25, .3, 1.3]])
+    mt = fem.MeshTet.init_tensor(np.array([0., .5, 1.]), np.array([0., .6, 1.]), np.array([0., 1.]))
+    out.append(("tet-sheared", fem.MeshTet(A3 @ mt.p, mt.t)))            # cells of all three inner-diagonal cases
     out.append(("hex1", fem.MeshHex()))
     out.append(("hex-tensor4", fem.MeshHex.init_tensor(np.array([0., .6, 1.]), np.array([0., .3, 1.]), np.array([0., 1.]))))
     out.append(("wedge-default", fem.MeshWedge1()))
